@@ -100,7 +100,10 @@ def run_value(rid, cls, ver, val):
     except Exception as e:
         rec["err"] = err(e)
     try:
-        rec["bytes2"] = list(B.encode(dec, ver))
+        b2 = B.encode(dec, ver)
+        if len(b2) > 200000:
+            raise ValueError("ReencodingBlowUp: the decoded value re-encodes to %d bytes (%d before)" % (len(b2), len(data)))
+        rec["bytes2"] = list(b2)
         rec["re_ok"] = True
     except Exception as e:
         rec["err"] = rec["err"] or err(e)
@@ -194,6 +197,8 @@ def run_accept(rid, cls, ver, obj_like, data):
         t1 = False
     try:
         e1 = B.encode(o1, ver)
+        if len(e1) > 200000 and len(e1) > 4 * len(data):
+            raise ValueError("ReencodingBlowUp: %d accepted bytes re-encode to %d" % (len(data), len(e1)))
         rec["e1_ok"] = True
     except Exception as e:
         rec["err"] = err(e)
@@ -416,11 +421,34 @@ def check(run, tier):
         uncon.setdefault((cls, why.split(":")[0], why[:120]), []).append(ver)
     run.extra["unconstructible"] = [{"cls": c, "why": w, "versions": sorted(set(v))} for (c, t, w), v in sorted(uncon.items())][:200]
     run.extra["classes"] = len(classes)
-    chunk = 6000
+    # an execution whose record is far larger than anything the generators produce (the unchanged tree stays below 40 kB)
+    # is a blow-up: the decoded or re-encoded value of a small input is not small.  It is reported here, not sent to TLC.
+    sizes = [(len(json.dumps(r)), r) for r in recs]
+    run.extra["largest_execution_record_bytes"] = max([n for n, _ in sizes] or [0])
+    recs = []
+    for n, r in sizes:
+        if n > 400000:
+            run.violation("C01_roundtrip", {"cls": r["cls"], "what": "blow-up"},
+                          {"id": r["id"], "cls": r["cls"], "ver": r["ver"], "clause": "C01_roundtrip",
+                           "detail": "the execution record of a small value has %d bytes (encoded %d, re-encoded %d bytes)" % (
+                               n, len(r["bytes"]), len(r["bytes2"])), "val": r["val"]})
+        else:
+            recs.append(r)
+    # shards by volume: one JSON file of tens of megabytes made JsonDeserialize fail inside TLC's workers
+    shards, cur, vol = [], [], 0
+    for n, r in sizes:
+        if n > 400000:
+            continue
+        if cur and (vol + n > 6000000 or len(cur) >= 6000):
+            shards.append(cur)
+            cur, vol = [], 0
+        cur.append(r)
+        vol += n
+    if cur:
+        shards.append(cur)
     drift_classes = {}
-    for i in range(0, len(recs), chunk):
-        part = recs[i:i + chunk]
-        res = validate(part, "%d" % (i // chunk))
+    for i, part in enumerate(shards):
+        res = validate(part, "%d" % i)
         run.add_tlc(res, "TraceSchema: %d executions" % len(part))
         ill = res.tag("M")
         if ill:
